@@ -278,13 +278,17 @@ def run_property(pid: str, tier: str, fn) -> int:
     seed = int(os.environ.get("VERIF_SEED", "0") or 0)
     report = Report(pid, tier)
     try:
+        from . import lints
+        lints.run_for(report)
         fn(report)
         if tier == "thorough" and not os.environ.get("VERIF_REPO") and not os.environ.get("VERIF_NO_SELFTEST"):
             selftest(report)
     except AnalysisError as e:
         print(f"ANALYSIS-ERROR property={pid} {e}")
         try:
-            finish(report, seed)
+            # a violation already established by an earlier rule stands, whatever anchor vanished afterwards
+            if finish(report, seed) == 1:
+                return 1
         except Exception:
             pass
         return 2
